@@ -297,6 +297,13 @@ func (n *Normer) CondOf(v ssa.Value) *Cond {
 				if as > bs {
 					as, bs = bs, as
 				}
+				// a known function is never nil; nil is nil
+				if (as == "nil" && strings.HasPrefix(bs, "func:")) || (bs == "nil" && strings.HasPrefix(as, "func:")) || (as == "nil" && bs == "nil") {
+					if (as == bs) == (x.Op == token.EQL) {
+						return cTrue
+					}
+					return cFalse
+				}
 				c := &Cond{Kind: CBool, Name: "Eq(" + as + "," + bs + ")", Opaque: op}
 				if x.Op == token.NEQ {
 					return cNot(c)
@@ -883,4 +890,94 @@ func smallConstSelector(fn *ssa.Function, idx int) bool {
 		}
 	}
 	return true
+}
+
+// singleBitTest recognises a condition that tests one bit of a value:
+//
+//	And(Shr(X,s),1) == 1, And(Shr(X,s),1) != 0, And(X,2^s) != 0, And(X,2^s) == 2^s  (and their negations)
+//
+// and returns the value, the bit number and whether the condition holds when the bit is set.
+func singleBitTest(c *Cond) (src string, bit int64, set bool, ok bool) {
+	neg := false
+	for c.Kind == CNot {
+		neg = !neg
+		c = c.Sub[0]
+	}
+	if c.Kind != CCmp || c.Op != "==" || !strings.HasPrefix(c.Base, "And(") || !strings.HasSuffix(c.Base, ")") {
+		return "", 0, false, false
+	}
+	args := splitTopLevel(c.Base[4 : len(c.Base)-1])
+	if len(args) != 2 {
+		return "", 0, false, false
+	}
+	x, ms := args[0], args[1]
+	m, err := strconv.ParseInt(ms, 10, 64)
+	if err != nil {
+		x, ms = args[1], args[0]
+		if m, err = strconv.ParseInt(ms, 10, 64); err != nil {
+			return "", 0, false, false
+		}
+	}
+	if m <= 0 || m&(m-1) != 0 {
+		return "", 0, false, false
+	}
+	switch {
+	case c.K == 0:
+		set = false // == 0: the bit is clear
+	case c.K == -m:
+		set = true
+	default:
+		return "", 0, false, false
+	}
+	if neg {
+		set = !set
+	}
+	for m > 1 {
+		m >>= 1
+		bit++
+	}
+	if strings.HasPrefix(x, "Shr(") && strings.HasSuffix(x, ")") {
+		sa := splitTopLevel(x[4 : len(x)-1])
+		if len(sa) == 2 {
+			if sh, err := strconv.ParseInt(sa[1], 10, 64); err == nil && sh >= 0 {
+				return sa[0], bit + sh, set, true
+			}
+		}
+		return "", 0, false, false
+	}
+	if strings.HasPrefix(x, "Div(") && strings.HasSuffix(x, ")") {
+		// a right shift of an unsigned value by a constant is normalised to a division by 2^s
+		sa := splitTopLevel(x[4 : len(x)-1])
+		if len(sa) == 2 {
+			if d, err := strconv.ParseInt(sa[1], 10, 64); err == nil && d > 0 && d&(d-1) == 0 {
+				for d > 1 {
+					d >>= 1
+					bit++
+				}
+				return sa[0], bit, set, true
+			}
+		}
+		return "", 0, false, false
+	}
+	return x, bit, set, true
+}
+
+// splitTopLevel splits "a,f(b,c),d" at the commas outside parentheses and brackets.
+func splitTopLevel(s string) []string {
+	var out []string
+	depth, start := 0, 0
+	for i, r := range s {
+		switch r {
+		case '(', '[':
+			depth++
+		case ')', ']':
+			depth--
+		case ',':
+			if depth == 0 {
+				out = append(out, s[start:i])
+				start = i + 1
+			}
+		}
+	}
+	return append(out, s[start:])
 }
